@@ -516,6 +516,7 @@ class Wsdl11Document(XmlDocument):
             validation=validation,
             namespaces=namespaces,
             locations=locations,
+            base_url=base_url,
             **kwargs,
         )
         self.target_namespace = self.root.get('targetNamespace', '')
